@@ -89,6 +89,20 @@ def step (dc dd : Bool) (e : Ev) : Op → Ev × Out
     if !e.registered then (e, .errUnknown)
     else (Ev.init, .gone ((e.subs.filter (fun s => !s.2)).map (·.1)) ((e.subs.filter (fun s => s.2)).map (·.1)))
 
+/-! Subscribers on other nodes. A consumer is `(node, pid)`; `self` is the producer's node. RouteSendEvent serves its
+local consumers through the fan-out loop and sends ONE frame to every node in its `remote` collection (a set when it
+is a map, `fd`); the node that receives a frame runs the same fan-out loop over its own subscribers of the event. -/
+
+def remoteNodes (fd : Bool) (self : Nat) (consumers : List (Nat × Nat)) : List Nat :=
+  let rs := (consumers.filter (fun c => c.1 ≠ self)).map (·.1)
+  if fd then dedupAux [] rs else rs
+
+/-- how many copies of one publication the subscriber `t` is handed -/
+def copies (fd dd : Bool) (self : Nat) (consumers : List (Nat × Nat)) (t : Nat × Nat) : Nat :=
+  let onNode := (consumers.filter (fun c => c.1 = t.1)).map (·.2)
+  if t.1 = self then (fanout dd onNode).count t.2
+  else (remoteNodes fd self consumers).count t.1 * (fanout dd onNode).count t.2
+
 def runOps (dc dd : Bool) (e : Ev) : List Op → Ev
   | [] => e
   | o :: os => runOps dc dd (step dc dd e o).1 os
